@@ -476,3 +476,187 @@ def c12_monitor(ctx, tr, ix):
                             % (op["acct"], today8, ",".join(sorted(set(actions))) or "no action", tv0, tv1, allowed), rp)
     ctx.evaluations += n
     ctx.stats["c12_steps"] += n
+
+
+# ----------------------------------------------------------------------------------------------------------- C04
+LEGAL = {("PENDING_NEW", "ACTIVE"), ("PENDING_NEW", "REJECTED"), ("ACTIVE", "FILLED"), ("ACTIVE", "CANCELLED"), ("ACTIVE", "REJECTED"),
+         ("ACTIVE", "PENDING_CANCEL"), ("PENDING_CANCEL", "CANCELLED")}
+FINAL = {"FILLED", "REJECTED", "CANCELLED"}
+
+
+def c04_monitor(ctx, tr, ix):
+    rp = replay_of(tr)
+    status = {}          # order id -> last status seen
+    trades = collections.defaultdict(lambda: {"q": 0, "pq": 0.0, "cost": 0.0})
+    announced_final = collections.Counter()
+    placed_day = {}
+    n = 0
+
+    def see(oid, st, where, when):
+        prev = status.get(oid)
+        if prev is not None and prev != st:
+            if prev in FINAL:
+                ctx.witness("C04.1", {"kind": "final_status_changed", "from": prev, "to": st}, "order %s: %s -> %s (%s at %s)" % (oid % 100000, prev, st, where, when), rp)
+            elif (prev, st) not in LEGAL:
+                ctx.witness("C04.1", {"kind": "illegal_transition", "from": prev, "to": st}, "order %s: %s -> %s (%s at %s)" % (oid % 100000, prev, st, where, when), rp)
+        status[oid] = st
+
+    for kind, e in tr.events:
+        when = e.get("when") if kind == "CALL" else e.get("cal")
+        if kind == "ORDER_PENDING_NEW":
+            o = e["order"]
+            n += 1
+            if o["id"] in status:
+                ctx.witness("C04.2", {"kind": "pending_new_twice"}, "order %s announced PENDING_NEW twice" % (o["id"] % 100000), rp)
+            see(o["id"], "PENDING_NEW", kind, when)
+            placed_day[o["id"]] = when.date()
+        elif kind == "ORDER_CREATION_PASS":
+            see(e["order"]["id"], "ACTIVE", kind, when)
+        elif kind == "TRADE" and e["order"] is not None:
+            o, t = e["order"], e["trade"]
+            n += 1
+            r = trades[o["id"]]
+            r["q"] += t["qty"]
+            r["pq"] += t["price"] * t["qty"]
+            r["cost"] += t["commission"] + t["tax"]
+            if o["filled"] != r["q"] or o["filled"] > o["qty"]:
+                ctx.witness("C04.3", {"kind": "filled_quantity"}, "order %s: filled %s, sum of its trades %s, quantity %s" % (o["id"] % 100000, o["filled"], r["q"], o["qty"]), rp)
+            if (o["status"] == "FILLED") != (o["filled"] == o["qty"]) and o["status"] != "CANCELLED":
+                ctx.witness("C04.3", {"kind": "filled_status"}, "order %s: status %s with filled %s of %s" % (o["id"] % 100000, o["status"], o["filled"], o["qty"]), rp)
+            if o["filled"] and not near(o["avg"] * o["filled"], r["pq"], 1e-9):
+                ctx.witness("C04.3", {"kind": "average_price"}, "order %s: avg %r x filled %s != sum price x qty %r" % (o["id"] % 100000, o["avg"], o["filled"], r["pq"]), rp)
+            if not near(o["cost"], r["cost"], 1e-9):
+                ctx.witness("C04.3", {"kind": "order_cost"}, "order %s: transaction_cost %r, sum of its trades' fees %r" % (o["id"] % 100000, o["cost"], r["cost"]), rp)
+            if status.get(o["id"]) in FINAL:
+                ctx.witness("C04.1", {"kind": "trade_after_final", "from": status.get(o["id"])}, "order %s traded after it was %s" % (o["id"] % 100000, status.get(o["id"])), rp)
+            if o["status"] == "FILLED":
+                see(o["id"], "FILLED", kind, when)
+        elif kind in ("ORDER_UNSOLICITED_UPDATE", "ORDER_CANCELLATION_PASS"):
+            o = e["order"]
+            n += 1
+            announced_final[o["id"]] += 1
+            if announced_final[o["id"]] > 1:
+                ctx.witness("C04.2", {"kind": "final_announced_twice", "event": kind}, "order %s: %s published although the order was already announced final (%s)" % (o["id"] % 100000, kind, o["status"]), rp)
+            if kind == "ORDER_UNSOLICITED_UPDATE" and o["status"] not in ("REJECTED", "CANCELLED"):
+                ctx.witness("C04.2", {"kind": "unsolicited_update_status"}, "UNSOLICITED_UPDATE for order %s in status %s" % (o["id"] % 100000, o["status"]), rp)
+            if status.get(o["id"]) == "FILLED":
+                ctx.witness("C04.1", {"kind": "final_status_changed", "from": "FILLED", "to": o["status"]}, "order %s was FILLED and is announced %s by %s" % (o["id"] % 100000, o["status"], kind), rp)
+            else:
+                if kind == "ORDER_CANCELLATION_PASS" and status.get(o["id"]) == "ACTIVE":
+                    status[o["id"]] = "PENDING_CANCEL"
+                see(o["id"], o["status"], kind, when)
+        elif kind == "ORDER_PENDING_CANCEL":
+            pass
+        elif kind == "CALL":
+            n += 1
+            # every order handed back by an order API is final or listed among the open orders
+            for o in e["orders"]:
+                live = tr.orders.get(o["id"])
+                if o["status"] not in FINAL and o["id"] not in e["open_after"]:
+                    ctx.witness("C04.4", {"kind": "returned_order_dangling", "api": e["api"], "status": o["status"]},
+                                "%s%r at %s returned order %s in status %s which is neither final nor among the open orders" % (e["api"], e["args"], when, o["id"] % 100000, o["status"]), rp)
+        elif kind == "POST_AFTER_TRADING":
+            n += 1
+            for oid in e["open"]:
+                if placed_day.get(oid) is not None and placed_day[oid] <= when.date():
+                    ctx.witness("C04.5", {"kind": "open_after_close"}, "order %s placed on %s is still open after the close of %s" % (oid % 100000, placed_day[oid], when.date()), rp)
+    # orders that never got announced final must be FILLED or still legitimately open at the end (none after the last close)
+    for oid, o in tr.orders.items():
+        st = o.status.name
+        if st not in FINAL and oid in status:
+            ctx.witness("C04.5", {"kind": "never_final", "status": st}, "order %s ends the run in status %s" % (oid % 100000, st), rp)
+    ctx.evaluations += n
+    ctx.stats["c04_observations"] += n
+
+
+# ----------------------------------------------------------------------------------------------------------- C05 / C06
+def c0506_monitor(which):
+    def mon(ctx, tr, ix):
+        import match_sync
+        rp = replay_of(tr)
+        sim = tr.cfg["sim"]
+        if which == "C05" and tr.exc is not None and any(m["raised"] for m in tr.rec.match_calls[-1:]):
+            m = tr.rec.match_calls[-1]
+            ctx.witness("C05", {"kind": "matcher_raises", "model": sim.get("slippage_model"), "exception": m["raised"]},
+                        "the matcher raised %s (%s) while matching a %s %s order on %s at %s under %s: the run ends with an internal error"
+                        % (m["raised"], str(tr.exc)[:80], m["pre"]["effect"], "limit" if m["pre"]["is_limit"] else "market", m["pre"]["book"], m["when"][0], sim.get("slippage_model")), rp)
+        if sim.get("signal"):
+            return
+        cum = collections.Counter()
+        n = 0
+        for kind, e in tr.events:
+            if kind != "TRADE" or e["order"] is None:
+                continue
+            t, o = e["trade"], e["order"]
+            oid = t["book"]
+            when = e["cal"]
+            day8 = B.d8(e["trd"].date())
+            auction = (when.hour == 0 and when.minute == 0) if True else False
+            bar = ix.bar(oid, day8)
+            n += 1
+            is_buy = t["side"] == "BUY"
+            is_limit = o["type"] == "LIMIT"
+            if bar is None:
+                if which == "C05":
+                    ctx.witness("C05.1", {"kind": "fill_without_bar"}, "%s %s traded at %s although the bundle has no bar for that day" % (oid, t["side"], when), rp)
+                continue
+            deal, lu, ld, vol = match_sync.market_inputs(ix, sim, oid, day8, auction)
+            if which == "C05":
+                if not (deal == deal and deal > 0):
+                    ctx.witness("C05.1", {"kind": "fill_without_valid_price"}, "%s traded at %s, prescribed price %r is not valid" % (oid, when, deal), rp)
+                    continue
+                want = deal if auction else match_sync.slip_price(sim, ix, oid, is_buy, is_limit, o["price"], deal, lu, ld)
+                if not near(t["price"], want, 1e-12):
+                    bar_deal = match_sync.market_inputs(ix, sim, oid, day8, False)[0]      # what a BAR order gets (close / vwap)
+                    alt = match_sync.slip_price(sim, ix, oid, is_buy, is_limit, o["price"], bar_deal, lu, ld) if bar_deal == bar_deal else float("nan")
+                    if auction and near(t["price"], alt, 1e-12):
+                        ctx.witness("C05.4", {"kind": "auction_order_filled_at_close"}, "%s %s order placed in the opening auction of %s was filled at 00:00 at %r = the price a BAR order gets from the day's close/vwap (open %r)" % (oid, t["side"], when.date(), t["price"], bar[1]), rp)
+                    else:
+                        ctx.witness("C05.1", {"kind": "trade_price", "auction": auction, "model": sim.get("slippage_model")}, "%s %s at %s: trade price %r, prescribed %r (reference %r, slippage %s %s)"
+                                    % (oid, t["side"], when, t["price"], want, deal, sim.get("slippage_model"), sim.get("slippage")), rp)
+                    continue
+                # adverse and banded
+                if (is_buy and t["price"] < deal - 1e-12) or (not is_buy and t["price"] > deal + 1e-12):
+                    ctx.witness("C05.2", {"kind": "slippage_favourable"}, "%s %s: trade price %r is better than the reference %r" % (oid, t["side"], t["price"], deal), rp)
+                if (lu == lu and t["price"] > lu + 1e-9) or (ld == ld and t["price"] < ld - 1e-9):
+                    ctx.witness("C05.2", {"kind": "outside_limit_band", "model": sim.get("slippage_model")}, "%s %s at %s: trade price %r outside the band [%r, %r] (reference %r, %s x %s)"
+                                % (oid, t["side"], when, t["price"], ld, lu, deal, sim.get("slippage_model"), sim.get("slippage")), rp)
+                if is_limit:
+                    if (is_buy and deal > o["price"] + 1e-12) or (not is_buy and deal < o["price"] - 1e-12):
+                        ctx.witness("C05.3", {"kind": "limit_not_reached"}, "%s limit %s %r filled although the reference price is %r" % (oid, t["side"], o["price"], deal), rp)
+                    if not sim.get("slippage") and ((is_buy and t["price"] > o["price"] + 1e-12) or (not is_buy and t["price"] < o["price"] - 1e-12)):
+                        ctx.witness("C05.3", {"kind": "worse_than_limit"}, "%s limit %s %r traded at %r without slippage" % (oid, t["side"], o["price"], t["price"]), rp)
+            else:
+                if not (deal == deal and deal > 0):
+                    continue
+                close_auction_quirk = False
+                if sim.get("price_limit", True):
+                    if is_buy and lu == lu and deal >= lu:
+                        ctx.witness("C06.1", {"kind": "buy_at_limit_up"}, "%s BUY filled at %s while the reference price %r is at limit-up %r" % (oid, when, deal, lu), rp)
+                    if (not is_buy) and ld == ld and deal <= ld:
+                        ctx.witness("C06.1", {"kind": "sell_at_limit_down"}, "%s SELL filled at %s while the reference price %r is at limit-down %r" % (oid, when, deal, ld), rp)
+                if sim.get("inactive_limit", True) and vol == 0:
+                    ctx.witness("C06.2", {"kind": "fill_in_zero_volume_bar"}, "%s filled at %s in a bar with zero volume" % (oid, when), rp)
+                lot = ix.cfg[oid][5]
+                key = (oid, day8, auction)
+                cum[key] += t["qty"]
+                if sim.get("volume_limit", True) and vol == vol:
+                    cap = round(vol * sim.get("volume_percent", 0.25))
+                    if cum[key] > cap:
+                        ctx.witness("C06.3", {"kind": "bar_cap_exceeded"}, "%s on %s (%s): %s filled in total, cap %s (%s of volume %s)" % (oid, day8, "auction" if auction else "bar", cum[key], cap, sim.get("volume_percent"), vol), rp)
+                    elif cum[key] > (cap // lot) * lot:
+                        ctx.witness("C06.3", {"kind": "whole_lot_cap_exceeded_after_odd_lot"}, "%s on %s: %s filled in total, whole-lot cap %s (cap %s, lot %s) — an odd-lot liquidation preceded" % (oid, day8, cum[key], (cap // lot) * lot, cap, lot), rp)
+                unfilled_before = o["qty"] - (o["filled"] - t["qty"])
+                if t["qty"] <= 0 or t["qty"] > unfilled_before:
+                    ctx.witness("C06.4", {"kind": "fill_size"}, "%s fill %s with unfilled remainder %s" % (oid, t["qty"], unfilled_before), rp)
+                if t["qty"] % lot != 0 and t["qty"] != unfilled_before:
+                    ctx.witness("C06.4", {"kind": "odd_lot_fill"}, "%s fill %s is neither whole lots of %s nor the remainder %s" % (oid, t["qty"], lot, unfilled_before), rp)
+        if which == "C06":
+            # a market order never stays partially open: checked on what the order API hands back and at the end of the run
+            for c in tr.calls:
+                for o in c["orders"]:
+                    if o["type"] == "MARKET" and 0 < o["filled"] < o["qty"] and o["status"] != "CANCELLED":
+                        ctx.witness("C06.5", {"kind": "market_order_partially_open"}, "%s%r at %s: market order filled %s of %s and is %s" % (c["api"], c["args"], c["when"], o["filled"], o["qty"], o["status"]), rp)
+        ctx.evaluations += n
+        ctx.stats[which.lower() + "_trades_checked"] += n
+    return mon
